@@ -51,7 +51,7 @@ class Prop:
             "result that needed >= 2 terms; distinct = distinct sha256 of the event log")
     probes = ["k2", "k3", "k4", "herm_adjpair", "herm_sandwich", "herm_nonadjoint", "domain_float", "domain_tracer",
               "result_one", "result_zero", "result_value", "multi_term_result", "discipline_checked", "highest_order_checked", "highest_order_truth_checked",
-              "op_array", "op_view", "repeat_cached", "op_mul", "op_rmul", "known0_pattern", "view_factor", "twin_product", "late_eval_factor", "tiny_scale", "known_finding_signature_hits"]
+              "op_array", "op_view", "repeat_cached", "op_mul", "op_rmul", "known0_pattern", "view_factor", "twin_product", "late_eval_factor", "tiny_scale", "dynamic_discipline_checked", "factor_chain_dep", "family_R", "recurrent_W1", "recurrent_W2", "recurrent_W3", "recurrent_compared", "known_finding_signature_hits"]
     components_real = ["pymablock.series.cauchy_dot_product, product_by_order, BlockSeries"]
     components_stub = ["factor series eval callbacks (simulator-owned tables, call log)", "element multiplication wrapper (logging)",
                        "tracer element type (exact free *-algebra)"]
@@ -59,8 +59,238 @@ class Prop:
                    "is requested only if every other factor has a not-known-absent zeroth-order element on some chain)",
                    "bounds: <= 4 factors, <= 3 blocks per dimension, per-axis orders <= 4/2/1 for 1/2/3 parameters"]
 
+    # ------------------------------------------------------------------ recurrent definitions (family R)
+    def gen_R(self, r, tier):
+        ninf = r.choice([1, 1, 2])
+        cap = 4 if ninf == 1 else 3
+        kind = r.choice(["W1", "W1", "W1", "W2", "W3", "W3"])
+        d = 1 if kind == "W3" else r.choice([1, 2, 2, 3])
+        orders = [n for n in itertools.product(range(MAXO[ninf] + 1), repeat=ninf) if sum(n) <= cap]
+        case = {"family": "R", "kind": kind, "d": d, "ninf": ninf, "cap": cap, "side": r.choice(["XB", "BX"]),
+                "pzB": r.choice([0.0, 0.3, 0.6]), "pzC": r.choice([0.0, 0.3]),
+                "b0": [r.choice(["data", "eval"]) for _ in range(d)], "u0": r.choice(["data", "eval"]),
+                "hermitian": r.random() < 0.6, "seed": r.randrange(1 << 30)}
+        names = ["X", "P"] if kind != "W3" else ["W", "U", "Ud", "P"]
+        ops = []
+        for _ in range(r.randint(4, 20)):
+            n = r.choice(orders)
+            if r.random() < 0.15:
+                ops.append([r.choice(names), "sl", [r.randrange(d), r.randrange(d)] + [{"s": [0, m + 1, None]} for m in n]])
+            else:
+                ops.append([r.choice(names), r.randrange(d), r.randrange(d), list(n)])
+        case["ops"] = ops
+        return case
+
+    def execute_R(self, case):
+        from pymablock.series import PENDING, BlockSeries, cauchy_dot_product, zero
+
+        d, ninf, kind = case["d"], case["ninf"], case["kind"]
+        rg = np.random.default_rng(case["seed"])
+        zo = (0,) * ninf
+        orders = list(itertools.product(range(MAXO[ninf] + 1), repeat=ninf))
+        events, counters = [], {"family_R": 1, "recurrent_" + kind: 1}
+        violation = None
+
+        def fail(cls, detail):
+            nonlocal violation
+            if violation is None:
+                violation = {"class": cls, "detail": detail, "info": {}}
+
+        def zsum(*xs):
+            r_ = zero
+            for x in xs:
+                if x is not zero:
+                    r_ = x if r_ is zero else r_ + x
+            return r_
+
+        def table(name, pz, zero0):
+            tab = {}
+            for n in orders:
+                for i in range(d):
+                    for j in range(d):
+                        absent = rg.random() < pz
+                        tab[(i, j, *n)] = zero if (absent or (sum(n) == 0 and zero0(i, j))) else T.gen(f"{name}{[i, j, *n]}")
+            return tab
+
+        series = {}
+        if kind in ("W1", "W2"):
+            side = case["side"]
+            # B_0: W1 -> vanishes entirely (declared in data or found by evaluation); W2 -> a non-zero diagonal block in
+            # every column/row, which makes every element of the recurrence ill-founded
+            Bt = table("B", case["pzB"], (lambda i, j: True) if kind == "W1" else (lambda i, j: i != j))
+            if kind == "W2":
+                for j in range(d):
+                    Bt[(j, j, *zo)] = T.gen(f"B{[j, j, *zo]}")
+            Ct = table("C", case["pzC"], lambda i, j: False)
+            flog = []
+            known = {}
+            if kind == "W1":
+                for i in range(d):
+                    for j in range(d):
+                        if case["b0"][j if side == "XB" else i] == "data":
+                            known[(i, j, *zo)] = zero
+            B = BlockSeries(eval=lambda *idx: (flog.append(("B", tuple(map(int, idx)))), Bt[tuple(map(int, idx))])[1],
+                            data=known or None, shape=(d, d), n_infinite=ninf, name="B")
+            # like `start` data in the mini-language, the zeroth order of a well-founded recurrence is given up front
+            x0 = {(i, j, *zo): Ct[(i, j, *zo)] for i in range(d) for j in range(d)} if kind == "W1" else None
+            X = BlockSeries(data=x0, shape=(d, d), n_infinite=ninf, name="X")
+            P = cauchy_dot_product(X, B) if side == "XB" else cauchy_dot_product(B, X)
+            X.eval = lambda *idx: zsum(Ct[tuple(map(int, idx))], P[tuple(map(int, idx))])
+            series = {"X": X, "P": P}
+            memo = {}
+
+            def RX(i, j, n):
+                key = (i, j, n)
+                if key not in memo:
+                    memo[key] = zsum(Ct[(i, j, *n)], RP(i, j, n))
+                return memo[key]
+
+            def RP(i, j, n):
+                res = zero
+                for k in range(d):
+                    for o1 in itertools.product(*(range(x + 1) for x in n)):
+                        o2 = tuple(a - b for a, b in zip(n, o1))
+                        if side == "XB":
+                            if o1 == n:
+                                continue  # B_0 vanishes: the highest order of X does not enter
+                            b = Bt[(k, j, *o2)]
+                            if b is zero:
+                                continue
+                            x = RX(i, k, o1)
+                            term = zero if x is zero else x @ b
+                        else:
+                            if o2 == n:
+                                continue
+                            b = Bt[(i, k, *o1)]
+                            if b is zero:
+                                continue
+                            x = RX(k, j, o2)
+                            term = zero if x is zero else b @ x
+                        res = zsum(res, term)
+                return res
+
+            refs = {"X": RX, "P": RP}
+        else:
+            # unitarity-like recurrence of the shipped algorithm, one block:  U' = W + V,  U'† = W - V,  W = -(U'† @ U') / 2
+            Vt = {}
+            for n in orders:
+                g = T.gen(f"V{list(n)}")
+                Vt[(0, 0, *n)] = zero if sum(n) == 0 else g - g.adjoint()
+            W = BlockSeries(data={(0, 0, *zo): zero}, shape=(1, 1), n_infinite=ninf, name="W")
+            u0 = {(0, 0, *zo): zero} if case["u0"] == "data" else None
+            U = BlockSeries(eval=lambda *idx: zsum(W[idx], Vt[tuple(map(int, idx))]), data=u0, shape=(1, 1), n_infinite=ninf, name="U")
+            Ud = BlockSeries(eval=lambda *idx: zsum(W[idx], -Vt[tuple(map(int, idx))] if Vt[tuple(map(int, idx))] is not zero else zero),
+                             data=u0, shape=(1, 1), n_infinite=ninf, name="Ud")
+            P = cauchy_dot_product(Ud, U, hermitian=bool(case["hermitian"]))
+            W.eval = lambda *idx: (lambda p_: zero if p_ is zero else p_ / -2)(P[idx])
+            series = {"W": W, "U": U, "Ud": Ud, "P": P}
+            memo = {}
+
+            def RW(i, j, n):
+                if sum(n) == 0:
+                    return zero
+                if n not in memo:
+                    p_ = RP(i, j, n)
+                    memo[n] = zero if p_ is zero else p_ / -2
+                return memo[n]
+
+            def RU(i, j, n):
+                return zsum(RW(0, 0, n), Vt[(0, 0, *n)])
+
+            def RUd(i, j, n):
+                v = Vt[(0, 0, *n)]
+                return zsum(RW(0, 0, n), zero if v is zero else -v)
+
+            def RP(i, j, n):
+                res = zero
+                for o1 in itertools.product(*(range(x + 1) for x in n)):
+                    o2 = tuple(a - b for a, b in zip(n, o1))
+                    if sum(o1) == 0 or sum(o2) == 0:
+                        continue  # zeroth orders vanish
+                    a, b = RUd(0, 0, o1), RU(0, 0, o2)
+                    if a is zero or b is zero:
+                        continue
+                    res = zsum(res, a @ b)
+                return res
+
+            refs = {"W": RW, "U": RU, "Ud": RUd, "P": RP}
+
+        T.work, T.budget = 0, 300000
+        ids = np.arange(d * d * (MAXO[ninf] + 1) ** ninf).reshape((d, d) + (MAXO[ninf] + 1,) * ninf)
+        cells_of = list(np.ndindex(*ids.shape))
+        compared = 0
+        from simkit.values import TracerOverflow
+
+        for opi, op in enumerate(case["ops"]):
+            if violation:
+                break
+            name = op[0]
+            if name not in series:
+                continue
+            if op[1] == "sl":
+                request = to_py(op[2])
+                try:
+                    sel = ids[request]
+                except IndexError:
+                    continue
+                cells = [tuple(int(x) for x in cells_of[int(k)]) for k in np.asarray(sel).ravel().tolist()]
+            else:
+                _, i, j, n = op
+                if i >= d or j >= d:
+                    continue
+                request = (i, j, *n)
+                sel = None
+                cells = [request]
+            if not cells or any(sum(c[2:]) > case["cap"] for c in cells):
+                continue
+            desc = f"op#{opi} {name}[{request}]"
+            try:
+                got = series[name][request]
+                exc = None
+            except RuntimeError as e:
+                exc = e
+            except TracerOverflow:
+                break
+            except Exception as e:
+                fail("unexpected-raise", f"{desc}: {type(e).__name__}: {e}")
+                break
+            if kind == "W2":
+                # every element of the recurrence needs itself times a present zeroth-order partner
+                if exc is None:
+                    fail("ill-founded-returns-value", f"{desc}: the definition is self-referential (X needs X times a non-zero zeroth order of B), expected RuntimeError, got {self._show(got)}")
+                events.append(("raise", opi))
+                compared += 1
+                continue
+            if exc is not None:
+                fail("recurrent-definition-raises", f"{desc}: the recurrent definition is well-founded (the partner of the highest order is absent at zeroth order) but the request raised {type(exc).__name__}: {exc}")
+                break
+            try:
+                wants = [refs[name](c[0], c[1], tuple(c[2:])) for c in cells]
+            except TracerOverflow:
+                break
+            if sel is not None and isinstance(sel, np.ndarray):
+                mask = np.ma.getmaskarray(got).ravel()
+                data = got.data.ravel()
+                gots = [zero if mask[k] else data[k] for k in range(len(cells))]
+            else:
+                gots = [got]
+            for c, g, w_ in zip(cells, gots, wants):
+                if not same(norm(g), norm(w_)):
+                    fail("value-mismatch", f"{desc}: element {c} = {self._show(g)}, recurrence solved directly = {self._show(w_)}")
+                    break
+            compared += 1
+            events.append(("ret", opi, fingerprint(norm(got))))
+            for s_ in series.values():
+                if any(v is PENDING for v in s_._data.values()):
+                    fail("pending-left", f"{desc}: in-flight marker left in {s_.name}")
+        counters["recurrent_compared"] = compared
+        return {"violation": violation, "digest": batch.digest_of(events), "events": len(events),
+                "nontrivial": compared >= 3, "counters": counters, "states": []}
+
     # ------------------------------------------------------------------ generation
     def generate(self, r, tier, idx):
+        if r.random() < 0.15:
+            return self.gen_R(r, tier)
         ninf = r.choice([1, 1, 1, 2, 2, 3])
         herm = r.choice(["none"] * 5 + ["adjpair"] * 2 + ["sandwich", "nonadjoint"])
         if herm == "adjpair":
@@ -96,6 +326,7 @@ class Prop:
                 known0 = [[r.randrange(dims[k]), r.randrange(dims[k + 1])] for _ in range(r.randint(1, 3))]
             factors.append({"pz": r.choice([0.0, 0.2, 0.5, 0.7]), "start_zero": r.random() < 0.3,
                             "ones": r.random() < 0.3, "fseed": r.randrange(1 << 30), "known0": known0,
+                            "chain_dep": r.random() < 0.15,  # evaluating an element first evaluates the previous order of the same factor
                             "late_eval": r.random() < 0.2,  # BlockSeries(data=...) first, `.eval = ...` assigned afterwards
                             "scale": r.choice([0, 0, 0, 3, 6, 9, 12])})  # float values of magnitude 10**-scale
         cap = {1: 4, 2: 3, 3: 2}[ninf]
@@ -220,6 +451,8 @@ class Prop:
     def execute(self, case):
         from pymablock.series import PENDING, BlockSeries, cauchy_dot_product, one, zero
 
+        if case.get("family") == "R":
+            return self.execute_R(case)
         K, ninf, dims, herm = case["K"], case["ninf"], case["dims"], case["herm"]
         self._case = case
         tables = self._tables(case, zero, one)
@@ -242,14 +475,49 @@ class Prop:
         log = []  # (factor, index)
         mlog = [0]
 
+        cur = {"cells": None}  # product cells of the request in flight
+        depth = [0]
+        dyn_bad = []
+
         def make_eval(k):
             tab = tables[k]
+            chain = bool(case["factors"][k].get("chain_dep"))
 
             def ev(*index):
                 index = tuple(int(i) for i in index)
                 log.append((k, index))
                 events.append(("f", k, index))
-                return tab.get(index, zero)
+                depth[0] += 1
+                try:
+                    if depth[0] == 1 and K == 2 and cur["cells"] and not case.get("view_factor"):
+                        # dynamic discipline: at this very moment some term of a requested cell must pair this element
+                        # with a partner that is not known to be absent
+                        ok = False
+                        cells = list(cur["cells"])
+                        if declared:
+                            cells += [(c[1], c[0], *c[2:]) for c in cur["cells"]]
+                        for c in cells:
+                            n = c[2:]
+                            o = index[2:]
+                            if any(a > b for a, b in zip(o, n)):
+                                continue
+                            rest = tuple(b - a for a, b in zip(o, n))
+                            if k == 0 and index[0] == c[0]:
+                                ok = (index[1], c[1], *rest) in roots[1]
+                            elif k == 1 and index[1] == c[1]:
+                                ok = (c[0], index[0], *rest) in roots[0]
+                            if ok:
+                                break
+                        bump("dynamic_discipline_checked")
+                        if not ok:
+                            dyn_bad.append((k, index))
+                    if chain and index[2] >= 1:
+                        # the caller's factor is itself a recurrence: this element looks at the previous order first
+                        roots[k][(index[0], index[1], index[2] - 1, *index[3:])]
+                        bump("factor_chain_dep")
+                    return tab.get(index, zero)
+                finally:
+                    depth[0] -= 1
 
             return ev
 
@@ -437,12 +705,22 @@ class Prop:
             if all(c in requested for c in must):
                 bump("repeat_cached")
             n0 = len(log)
+            cur["cells"] = must if target is P else None
             try:
                 res = target[item]
             except Exception as e:
                 fail("unexpected-raise", f"op#{opi} {op}: {type(e).__name__}: {e}")
                 break
+            finally:
+                cur["cells"] = None
+            if dyn_bad:
+                k_, idx_ = dyn_bad[0]
+                fail("discipline-dynamic", f"op#{opi} {op}: factor {NAMES[k_]} was evaluated at {idx_} at a moment when the complementary element of the other factor was already known to be absent for every requested element",
+                     {"factor": k_, "idx": list(idx_)})
+                break
             new = log[n0:]
+            if any(f.get("chain_dep") for f in case["factors"]):
+                new = []  # nested evaluations of a recurrent factor are not requests of the product
             if all(c in requested for c in must) and new:
                 fail("cached-product-reevaluates", f"op#{opi} {op}: repeated request evaluated factor elements {new[:3]}")
             requested.update(must)
@@ -574,6 +852,13 @@ class Prop:
     def shrink_candidates(self, case):
         for ops in dd_list(case["ops"]):
             yield {**case, "ops": ops}
+        if case.get("family") == "R":
+            if case["d"] > 1 and case["kind"] != "W3":
+                yield {**case, "d": case["d"] - 1, "b0": case["b0"][:-1]}
+            for key in ("pzB", "pzC"):
+                if case[key]:
+                    yield {**case, key: 0.0}
+            return
         for k, f in enumerate(case["factors"]):
             for key, val in (("pz", 0.0), ("start_zero", False), ("ones", False)):
                 if f[key]:
@@ -591,6 +876,8 @@ class Prop:
 
     def match_known(self, case, violation):
         info = violation.get("info", {})
+        if case.get("family") == "R":
+            return None
         if (case["herm"] == "nonadjoint" and case["K"] == 2 and violation["class"] == "value-mismatch"
                 and info.get("i") is not None and info["i"] == info["j"] and sum(info["n"]) > 0):
             return "C18/hermitian-halfsum-nonadjoint"
